@@ -35,6 +35,17 @@ use starlark::syntax::Dialect;
 use starlark::values::list::ListRef;
 use starlark::values::Value;
 
+/// Nominal types: declared once, in the frozen module; the live module LOADS them, so that a value
+/// built in the live module and a value frozen with the other module are instances of the same types
+/// (two evaluations of these declarations would be different types).
+const TYPES: &str = r#"
+RecA = record(a = int, b = int)
+RecB = record(a = int, b = int)
+EnA = enum("x", "y")
+EnB = enum("x", "y")
+"#;
+const LOAD_TYPES: &str = "load(\"frozen.star\", \"RecA\", \"RecB\", \"EnA\", \"EnB\")\n";
+
 const PRELUDE: &str = r#"
 def pm(x):
     return x + 1 - 1
@@ -119,6 +130,7 @@ fn parse(src: &str) -> Result<AstModule, String> {
 /// Module F: prelude + R = [every construction path], frozen.
 fn build_frozen(reps: &[Rep], ok: &[bool], globals: &Globals) -> Result<FrozenModule, String> {
     let mut src = String::from(PRELUDE);
+    src.push_str(TYPES);
     src.push_str("R = [\n");
     for (r, good) in reps.iter().zip(ok) {
         if *good {
@@ -146,7 +158,7 @@ fn replay(universe: &str, out_path: &str, modes: &[String]) -> anyhow::Result<()
     let globals = {
         use starlark::environment::GlobalsBuilder;
         use starlark::environment::LibraryExtension as L;
-        GlobalsBuilder::extended_by(&[L::StructType, L::SetType]).build()
+        GlobalsBuilder::extended_by(&[L::StructType, L::SetType, L::RecordType, L::EnumType]).build()
     };
     let mut reps: Vec<Rep> = Vec::new();
     for v in u["vals"].as_array().unwrap() {
@@ -159,7 +171,8 @@ fn replay(universe: &str, out_path: &str, modes: &[String]) -> anyhow::Result<()
             });
         }
     }
-    let pre_ast = parse(PRELUDE).map_err(|e| anyhow::anyhow!("prelude: {}", e))?;
+    let pre_ast = parse(&format!("{}{}", PRELUDE, TYPES)).map_err(|e| anyhow::anyhow!("prelude: {}", e))?;
+    let live_ast = parse(&format!("{}{}", LOAD_TYPES, PRELUDE)).map_err(|e| anyhow::anyhow!("live prelude: {}", e))?;
 
     // Pass 1: which construction paths evaluate at all (so the frozen module can be built).
     let mut ok = vec![false; reps.len()];
@@ -197,7 +210,7 @@ fn replay(universe: &str, out_path: &str, modes: &[String]) -> anyhow::Result<()
         let loader = ReturnFileLoader { modules: &mods };
         let mut eval = Evaluator::new(&module);
         eval.set_loader(&loader);
-        eval.eval_module(pre_ast.clone(), &globals)
+        eval.eval_module(if frozen.is_some() { live_ast.clone() } else { pre_ast.clone() }, &globals)
             .map_err(|e| anyhow::anyhow!("prelude: {}", e))?;
         // fresh values: each construction path is bound to a module global, so that the value stays
         // rooted while later statements run (a collection may happen at any top-level statement);
